@@ -7,10 +7,12 @@ package PKGNAME
 import (
 	"encoding/binary"
 	"fmt"
+	"gonum.org/v1/gonum/mat"
 	"math"
 	"math/rand"
 	"net"
 	"os"
+	"path/filepath"
 	"sync"
 	"time"
 
@@ -37,7 +39,8 @@ func vGenWireRecord(r *rand.Rand, big bool) *DataRecord {
 	rec.voltsPerArb = vPick(r, float32(1.0/65535), float32(math.Inf(1)), float32(math.NaN()), math.Float32frombits(r.Uint32()))
 	rec.trigFrame = FrameIndex(vPick(r, int64(0), int64(-1), int64(math.MaxInt64), int64(math.MinInt64), r.Int63()))
 	ns := vPick(r, int64(0), int64(-1), int64(1700000000)*1e9, int64(math.MaxInt64), r.Int63())
-	rec.trigTime = time.Unix(0, ns)
+	// (the instant is what is published; the time value may carry any location, as a machine not running on UTC gives it)
+	rec.trigTime = time.Unix(0, ns).In(vPick(r, time.UTC, time.UTC, time.FixedZone("verif-west", -7*3600), time.FixedZone("verif-east", 5*3600+1800), time.Local))
 	sp := func() float64 {
 		return vPick(r, 0.0, math.NaN(), math.Inf(1), math.Inf(-1), r.NormFloat64()*1000, 3.4e39, -1e-50)
 	}
@@ -375,11 +378,37 @@ func vRunC14(c *vCase) {
 	batch[0].channelIndex = vW.chanFilter
 	batch[1].channelIndex = vPick(r, 0x0101, 0x0301, 7)
 	batch[2].channelIndex = vW.chanFilter
-	if err := vWirePublisher().PublishData(batch); err != nil {
+	bpub := vWirePublisher()
+	var expect []*DataRecord // what each message must say: the records as they were handed over
+	if c.Idx%4 == 2 {
+		// the same batch also goes into an OFF file (a model with as many components as the records have coefficients): what is
+		// published is what was handed over, whatever the file writer does with it
+		nc := 1 + r.Intn(6)
+		for _, rec := range batch {
+			rec.modelCoefs = make([]float64, nc)
+			for i := range rec.modelCoefs {
+				rec.modelCoefs[i] = r.NormFloat64() * 1000
+			}
+			rec.data = rec.data[:vMinInt(len(rec.data), 7)]
+			rec.presamples = vMinInt(rec.presamples, len(rec.data))
+		}
+		n := 8
+		pm, bm := mat.NewDense(nc, n, make([]float64, nc*n)), mat.NewDense(n, nc, make([]float64, n*nc))
+		bpub.SetOFF(0, 2, n, 1, 1e-5, time.Unix(vT0Unix, 0), 1, 1, 1, 1, 0, 0, 0, filepath.Join(c.Dir, "c14.off"), "Verif", "chan0", 0, pm, bm, "verif", Pixel{})
+		defer bpub.RemoveOFF()
+		c.Cov("batches_also_written_to_an_off_file", 1)
+	}
+	for _, rec := range batch {
+		cp := *rec
+		cp.modelCoefs = append([]float64(nil), rec.modelCoefs...)
+		cp.data = append([]RawType(nil), rec.data...)
+		expect = append(expect, &cp)
+	}
+	if err := bpub.PublishData(batch); err != nil {
 		c.Violate("c14:publish-error", "PublishData returned %v", err)
 		return
 	}
-	for bi, rec := range batch {
+	for bi, rec := range expect {
 		m, err := vW.subRecAll.RecvMessageBytes(0)
 		if err != nil {
 			c.Violate("c14:batch-missing", "a batch of %d records was published; the subscriber did not receive message %d: %v", len(batch), bi, err)
